@@ -132,3 +132,91 @@ def hostile_hsms_stage(pid, tier, seed, BUILD, GOENV, known):
                 res["known_lines"].append("KNOWN-FINDING: property=%s %s" % (pid, k["what"]))
             res["k1_probe"] = out.strip().splitlines()[-1][:200] if out.strip() else ""
     return res
+
+
+SML_ALLOC_K = 100000   # bytes of TotalAlloc per input byte: the lexer compiles seven regexps per token (tens of KB per token)
+SML_ALLOC_C = 1 << 22
+SML_TIME_MS = 20000
+
+
+def hostile_sml_stage(pid, tier, seed, BUILD, GOENV, known):
+    """C06: hostile texts in a worker subprocess under an address-space limit and
+    a watchdog: no panic may escape, the process must not abort or hang, memory
+    must stay within a fixed linear function of the input length."""
+    corr = os.path.join(BUILD, "corr")
+    res = {"violations": [], "known_lines": []}
+    inputs = os.path.join(BUILD, "hostile-%s-%d.txt" % (pid, os.getpid()))
+    rc, out = _run("%s hostile-sml -seed %d -tier %s > %s" % (corr, seed, tier, inputs), GOENV, 1800)
+    if rc != 0:
+        res["violations"].append({"kind": "broken-obligation", "what": "hostile input generator failed", "detail": out[-1000:]})
+        return res
+    kinds, hexes = [], []
+    for line in open(inputs):
+        k, h = line.rstrip("\n").split(" ", 1)
+        kinds.append(k)
+        hexes.append(h)
+    os.remove(inputs)
+    pos, measured, restarts = 0, 0, 0
+    worst = (0.0, 0, 0, "")
+    slowest = (0, 0, "")
+    dist = {}
+    t0 = time.time()
+    while pos < len(hexes) and restarts < 20:
+        chunk = "\n".join(hexes[pos:]) + "\n"
+        p = subprocess.Popen("ulimit -v 12000000; exec %s worker-sml" % corr, shell=True, env=GOENV,
+                             stdin=subprocess.PIPE, stdout=subprocess.PIPE, stderr=subprocess.PIPE, text=True, errors="replace")
+        hung = False
+        try:
+            so, se = p.communicate(chunk, timeout=900 if tier == "quick" else 14000)
+        except subprocess.TimeoutExpired:
+            p.kill()
+            so, se = p.communicate()
+            hung = True
+        done_here = 0
+        for line in so.splitlines():
+            f = line.split()
+            if not f or f[0] != "done":
+                continue
+            i = pos + done_here
+            done_here += 1
+            measured += 1
+            n, alloc = int(f[1]), int(f[2])
+            dist[kinds[i]] = dist.get(kinds[i], 0) + 1
+            text = bytes.fromhex(hexes[i]) if hexes[i] != "-" else b""
+            if f[3] == "PANIC":
+                res["violations"].append({"kind": "counterexample", "source": "worker", "what": "a panic escaped sml.Parse",
+                                          "detail": "input (%s): %r panic: %s" % (kinds[i], text[:300], bytes.fromhex(f[4]).decode("utf8", "replace")[:300])})
+                continue
+            ns = int(f[6])
+            ratio = alloc / (n + 1.0)
+            if ratio > worst[0]:
+                worst = (ratio, n, alloc, kinds[i])
+            if ns > slowest[0]:
+                slowest = (ns, n, kinds[i])
+            if alloc > SML_ALLOC_K * n + SML_ALLOC_C:
+                res["violations"].append({"kind": "counterexample", "source": "worker", "what": "memory not bounded by the input length",
+                                          "detail": "input (%s, %d bytes) allocated %d bytes: %r" % (kinds[i], n, alloc, text[:300])})
+            if ns > SML_TIME_MS * 1e6:
+                res["violations"].append({"kind": "counterexample", "source": "worker", "what": "parsing did not return within %d s" % (SML_TIME_MS // 1000),
+                                          "detail": "input (%s, %d bytes) took %.1f s: %r" % (kinds[i], n, ns / 1e9, text[:200])})
+        pos += done_here
+        if (p.returncode != 0 or hung) and pos < len(hexes):
+            text = bytes.fromhex(hexes[pos]) if hexes[pos] != "-" else b""
+            res["violations"].append({"kind": "counterexample", "source": "worker",
+                                      "what": "the process %s while parsing" % ("hung" if hung else "aborted"),
+                                      "detail": "input (%s, %d bytes): %r ... stderr: %s" % (kinds[pos], len(text), text[:300], se[-500:])})
+            pos += 1
+            restarts += 1
+        elif p.returncode != 0:
+            break
+    res["evaluations"] = measured
+    res["distinct"] = len(set(hexes))
+    res["worker_inputs"] = measured
+    res["worker_s"] = round(time.time() - t0, 1)
+    res["alloc_bound"] = "TotalAlloc <= %d * len + %d" % (SML_ALLOC_K, SML_ALLOC_C)
+    res["worst_alloc_per_byte"] = {"ratio": round(worst[0], 1), "len": worst[1], "alloc": worst[2], "kind": worst[3]}
+    res["slowest"] = {"ms": slowest[0] // 1000000, "len": slowest[1], "kind": slowest[2]}
+    res["input_kinds"] = dist
+    res["samples"] = ["hostile text (%s): %r" % (kinds[i], (bytes.fromhex(hexes[i]) if hexes[i] != "-" else b"")[:100]) for i in range(0, min(len(hexes), 2000), 400)]
+    res["violations"] = res["violations"][:6]
+    return res
